@@ -6,23 +6,38 @@ KANI_SRC = os.path.join(VERIF, "kani")
 MEM_KB = int(os.environ.get("VERIF_KANI_MEM_KB", str(24 * 1024 * 1024)))
 
 
-def ensure_generated():
-    """kani/src/gen_c16.rs (one harness over the script names found in the working tree's pest/src/unicode/mod.rs) is part of
-    the harness crate: regenerate it for every run so that no check depends on C16 having run before it; when the names
+def ensure_generated(srcdir=None):
+    """src/gen_c16.rs (one harness over the script names found in the working tree's pest/src/unicode/mod.rs) is part of
+    the harness crate: it is regenerated for every run so that no check depends on C16 having run before it; when the names
     cannot be read the module is left empty (C16 itself then reports why)"""
-    gpath = os.path.join(KANI_SRC, "src", "gen_c16.rs")
-    try:
-        from props import c16
-        text = c16.gen(*c16.read_names(), 40)
-    except Exception as e:
-        text = f"// not generated: {type(e).__name__}\n"
-    if not os.path.exists(gpath) or open(gpath).read() != text:
-        tmp = gpath + f".{os.getpid()}.tmp"
-        open(tmp, "w").write(text); os.replace(tmp, gpath)
+    for d in ([srcdir] if srcdir else [os.path.join(crate_dir(v), "src") for v in ("default", "nomemchr")]):
+        gpath = os.path.join(d, "gen_c16.rs")
+        try:
+            from props import c16
+            text = c16.gen(*c16.read_names(), 40)
+        except Exception as e:
+            text = f"// not generated: {type(e).__name__}\n"
+        _write_if_changed(gpath, text)
+
+
+def _write_if_changed(path, text):
+    if not os.path.exists(path) or open(path).read() != text:
+        tmp = path + f".{os.getpid()}.{__import__('threading').get_ident()}.tmp"
+        open(tmp, "w").write(text); os.replace(tmp, path)
+
+
+_crate_lock = __import__("threading").Lock()
+_crate_done = {}
 
 
 def crate_dir(variant):
     """variant: 'default' (pest default features: std+memchr) or 'nomemchr' (std only)."""
+    with _crate_lock:          # worker threads ask for the directory concurrently: prepare it once per process
+        if variant not in _crate_done: _crate_done[variant] = _crate_dir(variant)
+        return _crate_done[variant]
+
+
+def _crate_dir(variant):
     d = os.path.join(WORK, "kani-crate-" + variant)
     os.makedirs(d, exist_ok=True)
     feats = '' if variant == "default" else ', default-features = false, features = ["std"]'
@@ -35,7 +50,7 @@ publish = false
 [workspace]
 
 [lib]
-path = "{KANI_SRC}/src/lib.rs"
+path = "src/lib.rs"
 
 [dependencies]
 pest = {{ path = "{REPO}/pest"{feats} }}
@@ -46,7 +61,12 @@ nomemchr = []
 [lints.rust]
 unexpected_cfgs = {{ level = "allow" }}
 """
-    ensure_generated()
+    # the harness sources are copied next to the manifest (the work directory may be a scratch one), plus the generated module
+    os.makedirs(os.path.join(d, "src"), exist_ok=True)
+    for fn in sorted(os.listdir(os.path.join(KANI_SRC, "src"))):
+        if fn.endswith(".rs") and not fn.startswith("gen_"):
+            _write_if_changed(os.path.join(d, "src", fn), open(os.path.join(KANI_SRC, "src", fn)).read())
+    ensure_generated(os.path.join(d, "src"))
     p = os.path.join(d, "Cargo.toml")
     if not os.path.exists(p) or open(p).read() != toml:
         open(p, "w").write(toml)
@@ -130,9 +150,8 @@ def playback(ctx, harness, variant, stubbing=False, cfg_hooks=False, timeout=180
     # scratch copy of the harness crate with the test appended to the harness' module
     scratch = os.path.join(WORK, "kani-pb-crate")
     shutil.rmtree(scratch, ignore_errors=True)
-    shutil.copytree(KANI_SRC + "/src", scratch + "/src")
-    toml = open(os.path.join(cd, "Cargo.toml")).read().replace(f'{KANI_SRC}/src/lib.rs', f'{scratch}/src/lib.rs')
-    open(scratch + "/Cargo.toml", "w").write(toml)
+    shutil.copytree(os.path.join(cd, "src"), scratch + "/src")
+    shutil.copy(os.path.join(cd, "Cargo.toml"), scratch + "/Cargo.toml")
     shutil.copy(os.path.join(cd, "Cargo.lock"), scratch + "/Cargo.lock")
     # module file of the harness (harness path is <module>::<fn>)
     modfile = os.path.join(scratch, "src", harness.split("::")[0] + ".rs")
